@@ -520,7 +520,12 @@ struct BigInt {
 
             case BigIntOperation::And: {
                 storage_[0U] &= number;
-                index_ = 0U;
+
+                while (index_ != 0U) {
+                    storage_[index_] = 0;
+                    --index_;
+                }
+
                 break;
             }
 
@@ -534,6 +539,8 @@ struct BigInt {
     template <BigIntOperation Operation, typename N_Number_T>
     inline void doOperation(N_Number_T number) noexcept {
         constexpr bool is_bigger_size = (((sizeof(N_Number_T) * 8U) / TypeWidth()) > 1U);
+        SizeT32        last_index     = index_;
+        SizeT32        index          = 1U;
 
         switch (Operation) {
             case BigIntOperation::Add: {
@@ -564,7 +571,6 @@ struct BigInt {
         }
 
         if QENTEM_CONST_EXPRESSION (is_bigger_size) {
-            SizeT32 index = 1U;
             number >>= TypeWidth();
 
             while (number != N_Number_T{0}) {
@@ -607,6 +613,14 @@ struct BigInt {
 
                 number >>= TypeWidth();
                 ++index;
+            }
+        }
+
+        if (Operation == BigIntOperation::And) {
+            // Words above the operand's top word are and-ed with zero.
+            while (last_index >= index) {
+                storage_[last_index] = 0;
+                --last_index;
             }
         }
     }
